@@ -293,6 +293,9 @@ def lock_model(I: Interp, cm: V) -> Any:
             return NONE
 
         def exit_(exc: Any) -> bool:
+            I.prove("P2-no-part-of-the-exchange-is-still-running-when-the-mutex-is-released",
+                    z3.BoolVal(I.ghost.get("detached", 0) == 0),
+                    "a shielded operation survives the cancellation of its caller")
             I.ghost["held"] = False
             I.ghost["released"] += 1
             return False
@@ -308,7 +311,20 @@ def section_harness(method: str):
         from gallia.services.uds.core import service as S
         if lock_model not in models.WITH_MODELS:
             models.WITH_MODELS.append(lock_model)
-        I.ghost.update({"held": False, "acquired": 0, "released": 0, "inner_calls": 0})
+        I.ghost.update({"held": False, "acquired": 0, "released": 0, "inner_calls": 0,
+                        "detached": 0})
+
+        def shield(I2: Interp, args: list[V], kwargs: dict[str, V]) -> V:
+            """asyncio.shield(aw): when the awaiting caller is cancelled, `aw` keeps running"""
+            aw = args[0]
+
+            def go() -> V:
+                if I2.choose([z3.BoolVal(True)] * 2) == 1:
+                    I2.ghost["detached"] += 1
+                    raise PyExc(VObj(asyncio.CancelledError, {"args": VTuple([])}))
+                return I2.await_v(aw)
+            return coro(go)
+        models.MODELS[asyncio.shield] = shield
 
         def inner(I2: Interp, self_: V, *a: V, **k: V) -> V:
             def go() -> V:
@@ -342,6 +358,9 @@ def section_harness(method: str):
 
         def release(I2: Interp, r: V, a: list[V], k: dict[str, V]) -> V:
             I2.prove("P2-release-only-by-the-holder", z3.BoolVal(bool(I2.ghost["held"])))
+            I2.prove("P2-no-part-of-the-exchange-is-still-running-when-the-mutex-is-released",
+                     z3.BoolVal(I2.ghost["detached"] == 0),
+                     "a shielded operation survives the cancellation of its caller")
             I2.ghost["held"] = False
             I2.ghost["released"] += 1
             return NONE
@@ -437,6 +456,7 @@ def native_interleavings() -> tuple[bool, str]:
                 self.mutex = asyncio.Lock()
                 self.is_closed = False
                 self.pending: list[Any] = []
+                self.reading = 0
 
             @classmethod
             async def connect(cls, target: Any, timeout: float | None = None) -> Any:
@@ -450,6 +470,9 @@ def native_interleavings() -> tuple[bool, str]:
 
             async def write(self, data: bytes, timeout: float | None = None,
                             tags: Any = None) -> int:
+                if self.reading:
+                    trace.append(f"!write of {data.hex()} while the read of another exchange "
+                                 "is pending")
                 trace.append("W " + data.hex())
                 steps = script.get(data.hex(), [(0.0, "7f" + data.hex()[:2] + "11")])
                 self.pending = list(steps.pop(0) if steps and isinstance(steps[0], list)
@@ -457,20 +480,27 @@ def native_interleavings() -> tuple[bool, str]:
                 return len(data)
 
             async def read(self, timeout: float | None = None, tags: Any = None) -> bytes:
-                if not self.pending:
-                    await asyncio.sleep(timeout or 0.05)
-                    raise TimeoutError
-                delay, reply = self.pending.pop(0)
-                if delay is None:
-                    await asyncio.sleep(timeout or 0.05)
-                    raise TimeoutError
-                await asyncio.sleep(delay)
-                trace.append("R " + reply)
-                return bytes.fromhex(reply)
+                self.reading += 1
+                try:
+                    if not self.pending:
+                        await asyncio.sleep(timeout or 0.05)
+                        raise TimeoutError
+                    delay, reply = self.pending.pop(0)
+                    if delay is None:
+                        await asyncio.sleep(timeout or 0.05)
+                        raise TimeoutError
+                    await asyncio.sleep(delay)
+                    trace.append("R " + reply)
+                    return bytes.fromhex(reply)
+                finally:
+                    self.reading -= 1
         return T()
 
     def interleaved(trace: list[str], first: str) -> str | None:
         """a write of another request between W <first> and the last read of its exchange"""
+        bang = [e for e in trace if e.startswith("!")]
+        if bang:
+            return bang[0][1:]
         try:
             i = trace.index("W " + first)
         except ValueError:
@@ -501,6 +531,10 @@ def native_interleavings() -> tuple[bool, str]:
                     "the next request made no progress within 1 s")
         except Exception:  # noqa: BLE001
             pass
+        bang = [e for e in trace if e.startswith("!")]
+        if bang:
+            return ("after a caller was cancelled in the middle of its exchange, the next "
+                    f"caller's {bang[0][1:]}: {trace}")
         return None
 
     async def s2() -> str | None:
